@@ -206,9 +206,49 @@ class _Scan(ast.NodeVisitor):
             self._use(node, node.id)
 
 
+_MODE_OF = {"r": "MR", "r+": "MRW", "a": "MA"}
+
+
+class _FetchActive(ast.NodeVisitor):
+    """default of fetch_active_workspace's `mode` parameter and every call of it inside the library (enclosing function,
+    literal mode)"""
+
+    def __init__(self, rel):
+        self.rel, self.stack, self.default, self.calls = rel, [], None, []
+
+    def _scoped(self, node):
+        self.stack.append(node.name)
+        self.generic_visit(node)
+        self.stack.pop()
+
+    visit_ClassDef = _scoped
+
+    def visit_FunctionDef(self, node):
+        if node.name == "fetch_active_workspace" and not self.stack:
+            names = [a.arg for a in node.args.args]
+            if "mode" not in names:
+                raise RuntimeError("fetch_active_workspace has no `mode` parameter any more")
+            k = names.index("mode") - (len(names) - len(node.args.defaults))
+            if k < 0:
+                self.default = "MVar"       # no default: every caller must pass one
+            else:
+                d = node.args.defaults[k]
+                self.default = _MODE_OF.get(d.value, "MOther") if isinstance(d, ast.Constant) and isinstance(d.value, str) else "MOther"
+        self._scoped(node)
+
+    visit_AsyncFunctionDef = visit_FunctionDef
+
+    def visit_Call(self, node):
+        fn = node.func
+        if (isinstance(fn, ast.Name) and fn.id == "fetch_active_workspace") or (isinstance(fn, ast.Attribute) and fn.attr == "fetch_active_workspace"):
+            self.calls.append({"encl": ".".join(self.stack) or "<module>", "file": self.rel, "line": node.lineno, "mode": _lit_mode(node, 1)})
+        self.generic_visit(node)
+
+
 def extract(repo):
     repo = Path(repo)
     rows, fetch, rmut = [], [], []
+    fa_default, fa_calls = None, []
     files = sorted(p for p in (repo / "geoh5py").rglob("*.py"))
     if not files:
         raise RuntimeError(f"no python sources under {repo}/geoh5py")
@@ -220,6 +260,13 @@ def extract(repo):
         rows += sc.rows
         fetch += sc.fetch
         rmut += sc.reader_mut
+        fa = _FetchActive(rel)
+        fa.visit(tree)
+        fa_calls += fa.calls
+        if fa.default is not None:
+            if fa_default is not None:
+                raise RuntimeError("two top-level definitions of fetch_active_workspace")
+            fa_default = fa.default
     # fail-closed sanity: the anchors the theorems talk about must have been seen
     if not any(r["site"] == "SIoCall" for r in rows):
         raise RuntimeError("extractor found no _io_call site")
@@ -227,7 +274,16 @@ def extract(repo):
         raise RuntimeError("extractor did not find `fun(self.geoh5, ...)` inside Workspace._io_call")
     if not any(r["cls"] == "Writer" for r in fetch) or not any(r["cls"] == "Reader" for r in fetch):
         raise RuntimeError("extractor found no fetch_h5_handle inside H5Writer / H5Reader")
-    return {"iocalls": rows, "fetch": fetch, "reader_mut": rmut}
+    if fa_default is None:
+        raise RuntimeError("extractor did not find the definition of fetch_active_workspace")
+    for h in HELPER_BLOCKS:
+        if not any(c["encl"] == h for c in fa_calls):
+            raise RuntimeError(f"extractor found no fetch_active_workspace block inside {h} (helper renamed or restructured)")
+    return {"iocalls": rows, "fetch": fetch, "reader_mut": rmut, "fa_default": fa_default, "fa_calls": fa_calls}
+
+
+# the helpers property C10 names: "loading a ui.json" (InputFile.data setter) and "exporting a copy to a monitoring directory"
+HELPER_BLOCKS = ("InputFile.data", "monitored_directory_copy")
 
 
 def _row_v(r):
@@ -243,6 +299,12 @@ def emit(tables):
         out.append(f"Definition {name} : list row := [")
         out.append(";\n".join("  " + _row_v(r) for r in rows))
         out.append("].\n")
+    out.append(f"Definition fetch_active_default : rmode := {tables['fa_default']}.\n")
+    out.append("(* every `fetch_active_workspace(...)` call inside the library: enclosing function, file, line, literal mode *)")
+    out.append("Definition T_fetch_active_calls : list (string * string * N * rmode) := [")
+    out.append(";\n".join("  (%s, %s, %d%%N, %s)" % (C.cstr(c["encl"]), C.cstr(c["file"]), c["line"], c["mode"]) for c in tables["fa_calls"]))
+    out.append("].\n")
+    out.append("Definition helper_blocks : list string := [" + "; ".join(C.cstr(h) for h in HELPER_BLOCKS) + "].\n")
     text = "\n".join(out) + "\n"
     gen = C.COQ / "generated"
     gen.mkdir(exist_ok=True)
